@@ -623,15 +623,76 @@ fn run<Ty: EdgeType + Clone>(name: &'static str, visit: bool, cfg: &Cfg, mut fee
             }
             Op::AllEdgesMut => {
                 let mut log: Vec<(Key, Key, u32, u32)> = Vec::new();
+                // every way of consuming the iterator must visit each edge exactly once
+                let total = m.edges.len();
+                let how = (step as u64 + cfg.obs_seed) % 4;
+                let mut proto: Option<String> = None;
                 let r = catch(|| {
-                    for (a, b, w) in g.all_edges_mut() {
+                    let hint = g.all_edges_mut().size_hint();
+                    if hint != (total, Some(total)) {
+                        proto = Some(format!("size_hint() = {:?} with {} edges", hint, total));
+                    }
+                    let c = g.all_edges_mut().count();
+                    if c != total {
+                        proto = Some(format!("count() = {} with {} edges", c, total));
+                    }
+                    let mut visit = |a: Key, b: Key, w: &mut u32, log: &mut Vec<(Key, Key, u32, u32)>| {
                         let nw = fresh();
                         log.push((a, b, *w, nw));
                         *w = nw;
+                    };
+                    match how {
+                        0 => {
+                            for (a, b, w) in g.all_edges_mut() {
+                                visit(a, b, w, &mut log);
+                            }
+                        }
+                        1 => {
+                            for (a, b, w) in g.all_edges_mut().rev() {
+                                visit(a, b, w, &mut log);
+                            }
+                        }
+                        2 => {
+                            // nth(k) skips exactly k items; the skipped prefix is visited through a second pass
+                            let k = if total == 0 { 0 } else { (cfg.obs_seed as usize ^ step) % total };
+                            let mut it = g.all_edges_mut();
+                            if let Some((a, b, w)) = it.nth(k) {
+                                visit(a, b, w, &mut log);
+                            }
+                            for (a, b, w) in it {
+                                visit(a, b, w, &mut log);
+                            }
+                            let mut it = g.all_edges_mut();
+                            for _ in 0..k.min(total) {
+                                if let Some((a, b, w)) = it.next() {
+                                    visit(a, b, w, &mut log);
+                                }
+                            }
+                        }
+                        _ => {
+                            // last() is the item next_back() gives; then everything but it
+                            let mut last_key = None;
+                            if let Some((a, b, w)) = g.all_edges_mut().last() {
+                                last_key = Some((a, b));
+                                visit(a, b, w, &mut log);
+                            }
+                            let mut it = g.all_edges_mut();
+                            match (it.next_back(), last_key) {
+                                (Some((a, b, _)), Some(k)) if (a, b) == k => {}
+                                (None, None) => {}
+                                (x, k) => proto = Some(format!("last() gave {:?} but next_back() gives {:?}", k, x.map(|t| (t.0, t.1)))),
+                            }
+                            for (a, b, w) in it {
+                                visit(a, b, w, &mut log);
+                            }
+                        }
                     }
                 });
                 if let Err(p) = r {
                     bail!(kind, "panic", "all_edges_mut panicked: {}", p);
+                }
+                if let Some(d) = proto {
+                    bail!(kind, "iterator-protocol", "all_edges_mut(): {}", d);
                 }
                 if log.len() != m.edges.len() {
                     bail!(kind, "count", "all_edges_mut yielded {} edges, model has {}", log.len(), m.edges.len());
